@@ -62,6 +62,10 @@ async def run(
     # Start simulator processes
     processes: List[asyncio.Task[None]] = []
     for sim in world.sims.values():
+        # The progress of a simulator can be advanced from another
+        # simulator's process before its own process has started, so
+        # its real-time start must exist by then.
+        sim.rt_start = perf_counter()
         process = world.loop.create_task(
             sim_process(world, sim, until, rt_factor, rt_strict, lazy_stepping),
             name=f"Runner for {sim.sid}"
